@@ -280,3 +280,8 @@ Theorem best_chain_never_invalid ops s : Inv_flags s -> tip_ok s ->
 Proof.
   intros I T. destruct (run_good ops s (conj I T)) as [I' T']. apply chain_valid; auto.
 Qed.
+
+Lemma alt_init_good h : Inv_flags (alt_init h) /\ tip_ok (alt_init h).
+Proof. split; [apply alt_init_inv|apply init_tip_ok_alt]. Qed.
+Lemma pow_init_good h w : Inv_flags (pow_init h w) /\ tip_ok (pow_init h w).
+Proof. split; [apply pow_init_inv|apply init_tip_ok_pow]. Qed.
